@@ -88,6 +88,14 @@ def native(ty: Ty, rng, depth=0, hashable=False):
                 d[kk] = sub(ty.a[1], hashable=False)
             except TypeError:
                 raise Skip()
+        # keys must stay distinct once serialised (True and an enum member valued 1 would collide)
+        from . import env
+        try:
+            ser = [env.into_data(kk) for kk in d]
+        except Exception:
+            raise Skip()
+        if any(a == b for i, a in enumerate(ser) for b in ser[i + 1:]):
+            raise Skip()
         res = ty.x.get('res', 'dict')
         if res == 'OrderedDict': return collections.OrderedDict(d)
         if res == 'defaultdict': return collections.defaultdict(None, d)
@@ -108,7 +116,7 @@ def native(ty: Ty, rng, depth=0, hashable=False):
         for _ in range(6):
             v = sub(ty.a[0])
             try:
-                if all(C.pred(c)(v) for c in ty.x['conds']):
+                if all(bool(C.pred(c)(v)) for c in ty.x['conds']):
                     return v
             except Exception:
                 pass
